@@ -316,7 +316,7 @@ def check_paths(run, router, keys, quick, samples, distinct):
             if g == "Panics":
                 kid = "F5-set-sharding-key-overflow"
                 if path == "set_key" and kid in known and s.isdigit() and int(s) >= 2**63:
-                    run.known_finding("SET SHARDING KEY TO '<digits beyond i64>' panics the client task instead of answering (e.g. %s)" % s.decode())
+                    run.known_finding("SET SHARDING KEY TO '<digits beyond i64>' panics the client task instead of answering (e.g. %s)" % s.decode(), key=kid)
                 else:
                     run.violation("counterexample", "spelling %r via %s panics the client task" % (s, path),
                                   {"input": {"spelling": s.decode("latin1"), "path": path}, "impl": "panic"})
